@@ -316,7 +316,7 @@ def gen_classchange(rng, kind):
     return case, pts
 
 
-def gen_network(rng):
+def gen_network(rng, nest=None):
     """filter -> assembly -> (LinSolve | SystemOfEquations) -> compliance, as a Network; inputs: design x"""
     pm = _pm()
     nx, ny = int(rng.integers(2, 5)), int(rng.integers(2, 5))
@@ -328,6 +328,24 @@ def gen_network(rng):
     f = np.zeros(n)
     f[2 * dom.get_nodenumber(nx, ny // 2) + 1] = 1.0
     x0 = rng.uniform(0.3, 1.0, dom.nel)
+    # how the response part is put together: flat, as a completed sub-network, or as a sub-network that is extended AFTER
+    # it was appended to the outer network (the late modules share a signal only among themselves)
+    nest = nest or ["flat", "nested", "nested_late"][int(rng.integers(0, 3))]
+
+    def tail(net, sc):
+        if nest == "flat":
+            return sc
+        if nest == "nested":
+            sub = pm.Network(pm.MathGeneral([sc], expression="inp0*inp0 + inp0"))
+            sub.append(pm.MathGeneral(sub.mods[-1].sig_out, expression="3*inp0 - 0.5"))
+            sub.append(pm.MathGeneral(sub.mods[-1].sig_out, expression="2*inp0 + 1"))
+            net.append(sub)
+            return sub.mods[-1].sig_out[0]
+        sub = pm.Network(pm.MathGeneral([sc], expression="inp0*inp0 + inp0"))
+        net.append(sub)
+        sub.append(pm.MathGeneral(sub.mods[-1].sig_out, expression="3*inp0 - 0.5"))
+        sub.append(pm.MathGeneral(sub.mods[-1].sig_out, expression="2*inp0 + 1"))
+        return sub.mods[-1].sig_out[0]
 
     def make():
         sx = pm.Signal("x", x0.copy())
@@ -347,12 +365,12 @@ def gen_network(rng):
             sxp = pm.Signal("xp", 0.01 * np.arange(len(bc), dtype=float))
             su, sb = net.append(pm.SystemOfEquations([sK, sbf, sxp], free=free, prescribed=bc))
             sc = net.append(pm.EinSum([su, sb], expression="i,i->"))
-        return zoo.NetAdapter(net, [sc]), [sx]
+        return zoo.NetAdapter(net, [tail(net, sc)]), [sx]
 
     def dirs(rng2, states):
         return [rng2.uniform(-1, 1, states[0].shape)]
 
-    return zoo.Case(f"Network.{kind}.{nx}x{ny}", make, dirs=dirs, clip=(0.05, 1.0))
+    return zoo.Case(f"Network.{kind}.{nest}.{nx}x{ny}", make, dirs=dirs, clip=(0.05, 1.0))
 
 
 def correspondence(ctx):
@@ -426,8 +444,8 @@ def correspondence(ctx):
                 ctx.oracle_fail(r[1], {"case": case.name})
             else:
                 ctx.distinct.add(("lib", case.name))
-    for _ in range(3 if ctx.quick else 20):
-        case = gen_network(nprng)
+    for k in range(4 if ctx.quick else 24):
+        case = gen_network(nprng, ["nested_late", "flat", "nested", "nested_late"][k % 4])
         r = call_impl(history_oracle, case, nprng, int(nprng.integers(6, 16)), 1e-6)
         ctx.evaluations += 1
         ctx.branch("lib.network")
